@@ -296,6 +296,8 @@ def run(tier, seed):
             xs1 = [special[0][1]] + readings(rng, 1 + n_rand)
             mixed = t_different_offset_scales(u0.name, u1.name)
             pairkey = f"{u0.shape}|{u1.shape}"
+            # trivial = both operands are the same offset-free unit (no temperature-specific branch is taken)
+            nontrivial = not (u0.name == u1.name and u0.kind == "diff")
             chk.count(f"pair:{u0.kind}-{u1.kind}")
             # -- additive
             for op, forms, opc in (("add", ADD_FORMS, "c08.add"), ("sub", SUB_FORMS, "c08.sub")):
@@ -307,7 +309,7 @@ def run(tier, seed):
                         a = mk(okind, xs0, u0.spelling)
                         b = mk(okind, xs1, u1.spelling)
                         res = run_form(code, a, b)
-                        chk.case(("bin", op, u0.name, u1.name, fname, okind),
+                        chk.case(("bin", op, u0.name, u1.name, fname, okind) if nontrivial else None,
                                  {"op": op, "form": fname, "u0": u0.spelling, "u1": u1.spelling, "x0": xs0, "x1": xs1}
                                  if (npairs * 7 + len(fname)) % 97 == 0 else None)
                         src = guarded(f"a = {mk_src(okind, xs0, u0.spelling)}\nb = {mk_src(okind, xs1, u1.spelling)}\n")
@@ -341,7 +343,7 @@ def run(tier, seed):
                 a = mk("a", xs0, u0.spelling)
                 b = mk("a", xs1, u1.spelling)
                 res = run_form(code, a, b)
-                chk.case(("cmp", u0.name, u1.name, fname))
+                chk.case(("cmp", u0.name, u1.name, fname) if nontrivial else None)
                 if res[0] == "ok":
                     got = [bool(x) for x in np.asarray(res[1]).ravel()]
                     outcomes[fname] = ("ok", pyop, got)
@@ -375,7 +377,7 @@ def run(tier, seed):
                     a = mk("a", xs0, u0.spelling)
                     b = mk("a", xs1nz, u1.spelling)
                     res = run_form(code, a, b)
-                    chk.case((op, u0.name, u1.name, fname))
+                    chk.case((op, u0.name, u1.name, fname) if nontrivial else None)
                     if res[0] == "ok":
                         r = res[1]
                         outcomes[fname] = ("ok", float(r.units.base_value), vals(r))
@@ -444,7 +446,7 @@ def run(tier, seed):
                 res = ("ok", eval(expr, {"np": np, "a": a, "operator": operator}))
             except Exception as e:  # noqa: BLE001
                 res = ("err", core.exc_name(e))
-            chk.case(("unary", expr, u.name))
+            chk.case(("unary", expr, u.name) if u.kind == "point" else None)
             fam = {"mulreduce": "multiply.reduce"}.get(mop, mop)  # the ufunc / reduction the form reaches
             if res[0] == "ok" and u.kind == "point":
                 chk.fail(f"no-refusal|{fam}|{u.shape}", f"{expr} on an offset-scale quantity ({u.spelling}) returned {res[1]!r} instead of raising",
@@ -516,7 +518,7 @@ def run(tier, seed):
                     chk.fail(f"convert-raised|{u.shape}|{v.shape}", f"{u.spelling} -> {v.spelling} via {rn} raised {core.exc_name(e)}",
                              {"python": snippet(guarded(f"a = unyt_array([{x!r}], {u.spelling!r}); B = {v.spelling!r}; Unit(B)") + f"{code.replace('; ', chr(10))}\n")})
                     continue
-                chk.case(("conv", u.name, v.name, rn))
+                chk.case(("conv", u.name, v.name, rn) if u.name != v.name else None)
                 g = vals(r)[0]
                 if rn == "to":
                     got = g
@@ -572,7 +574,9 @@ def run(tier, seed):
             "prefixes m,k,da,µ in the quick tier, all 22 in the thorough tier) x {add, subtract} x {operator, ufunc, in-place, out=} x {array, quantity} "
             "+ 9 comparison forms + {multiply, divide} x {operator, ufunc, in-place, floor} + 4 conversion routes; every unit x 19 power/root/product forms, "
             "4 reductions, diff/ediff1d/ptp, x/÷ with a number, a dimensionless quantity and metres on either side; alternative spellings; "
-            "readings: the counterexample witness (1, 50) plus seeded values; distinct = distinct (form, unit0, unit1, operand kind)")
+            "readings: the counterexample witness (1, 50) plus seeded values; distinct = distinct (form, unit0, unit1, operand kind); "
+            "non-trivial = a temperature-specific branch is involved: binary cases whose operands are not the same offset-free unit, "
+            "power forms on offset units, every reduction / diff / spelling case, conversions between different units")
     return chk.finish(rule)
 
 
